@@ -58,7 +58,7 @@ import fockgen as fg
 import lightworks as lw
 from core import PYTH, Ctx, ddmin, exc_class, frac_str
 from lightworks import emulator
-from props.c05 import gen_rules, make_ps, rule_ok
+from props.c05 import gen_rules, make_ps, new_ps, rule_ok
 
 TRUSTED = [
     "Lean 4.33 kernel; axioms subset of {propext, Classical.choice, Quot.sound} (audited on every run)",
@@ -231,7 +231,7 @@ def py_tape(seed, n: int) -> list[str]:
 def mk_post(form: str, rules):
     """the post-selection handed to the API: None, a PostSelection object, or a plain function"""
     if form == "object_always":
-        ps = lw.PostSelection()
+        ps = new_ps(rules)
         for ms, cnt in rules:
             ps.add(tuple(ms), tuple(cnt))
         return ps
@@ -1278,8 +1278,9 @@ PARAMS = [0.25, 0.5, 0.75, 1.0, 0.0]
 def gen_rules_h(rng, modes: int, nph: int) -> list:
     """post-selection rules that usually leave something: count sets of two or three values"""
     rules, used = [], set()
+    share = rng.random() < 0.25  # several rules on one mode (multi_rules=True)
     for _ in range(rng.choice([0, 1, 1, 2])):
-        free = [m for m in range(modes) if m not in used]
+        free = [m for m in range(modes) if share or m not in used]
         if not free:
             break
         ms = rng.sample(free, rng.randint(1, min(2, len(free))))
